@@ -112,7 +112,7 @@ type PanicInfo struct {
 // runOne executes main under the scheduler following prefix, then default choices.
 func runOne(opts Options, prefix []int32, expect []uint32, main func(), states map[uint64]struct{}, trace *[]string) (*Exec, *Result) {
 	if opts.MaxSteps == 0 {
-		opts.MaxSteps = 20000
+		opts.MaxSteps = 6000
 	}
 	if opts.MaxTimerFires == 0 {
 		opts.MaxTimerFires = 40
